@@ -131,6 +131,9 @@ def check_C09(ctx):
         _c09_copy(ctx)
     _c09_direct(ctx)
     _c09_known_witnesses(ctx)
+    _c09_f4d_witnesses(ctx)
+    _c09_relational_sweeps(ctx)
+    _c09_relational_errors(ctx)
     # natural triggering at lowered thresholds
     for k in range(80 if ctx.tier == 'quick' else 400):
         if ctx.time_left() < 5:
@@ -175,14 +178,47 @@ def check_C09(ctx):
         h.finish(SECTIONS_L3, 'C09 natural')
 
 
+def _keys_by_name(b, text, pairs):
+    """The keys of a protocol argument (`n:x`, `l:3`) as names in the order of `b`."""
+    def nm(k):
+        k = implmod.parse_key(k)
+        return k if isinstance(k, str) else b._level_to_var[k]
+    if pairs:
+        return [(nm(k), nm(v)) for k, v in implmod.parse_pairs(text)]
+    return [nm(k) for k in implmod.split1(text)]
+
+
+def _preimage_documented(b, target, pairs):
+    """The hypotheses of `C13_preimage_partial` in the CURRENT order of `b`: partners neighbours,
+    no two keys with the same value, the target independent of every value."""
+    vals = [v for _, v in pairs]
+    if len(set(vals)) != len(vals):
+        return False
+    if any(abs(b.vars[k] - b.vars[v]) != 1 for k, v in pairs):
+        return False
+    return not (set(b.support(target)) & set(vals))
+
+
 def _c09_one(ctx, lines, held, names, label, op, args, mid=0, op_mid=None):
     """Run `op` without reordering, then with the request firing at k = 1, 2, ...
     `mid` is the manager in which reordering is enabled and the result lives;
-    `op_mid` the manager the protocol line addresses (differs for `copy`)."""
+    `op_mid` the manager the protocol line addresses (differs for `copy`).
+
+    `preimage` assumes that the partners of its renaming are neighbours, and sifting moves single
+    variables: the result must equal the one computed without reordering only when the order in
+    which the manager is left still meets that assumption (C09_preimage_transparent); in every
+    case it must be what `preimage` computes, without reordering, on that final order."""
     if op_mid is None:
         op_mid = mid
     ref_s = replay_lines(ctx, lines)
     b0 = ref_s.mgr(mid)
+    rel_pairs = rel_qs = None
+    documented0 = True
+    if op in ('image', 'preimage'):
+        rel_pairs = _keys_by_name(b0, args[2], True)
+        rel_qs = _keys_by_name(b0, args[3], False)
+        if op == 'preimage':
+            documented0 = _preimage_documented(b0, int(args[1]), rel_pairs)
     held_tt = {u: TT(b0, names).of(u) for u, mm in held if mm == mid} if held and isinstance(held[0], tuple) else {u: TT(b0, names).of(u) for u in held}
     ans0 = ref_s.op(op_mid, op, *args)
     r0 = ref_s.val(ans0)
@@ -210,9 +246,23 @@ def _c09_one(ctx, lines, held, names, label, op, args, mid=0, op_mid=None):
             bad.append(f'operation failed with reordering at request {k}: {ans}')
             tags['symptom'] = 'raises'
         else:
-            if abs(r) not in b._succ or TT(b, names).of(r) != want:
+            same_expected = True
+            if op == 'preimage':
+                same_expected = documented0 and _preimage_documented(b, int(args[1]), rel_pairs)
+                ctx.count('preimage:' + ('partners-still-neighbours' if same_expected
+                                         else 'partners-separated-or-undocumented-use'))
+            if abs(r) not in b._succ:
+                bad.append('result is not a node of the manager')
+                tags['symptom'] = 'wrong-result'
+            elif same_expected and TT(b, names).of(r) != want:
                 bad.append('result denotes another function than with reordering disabled')
                 tags['symptom'] = 'wrong-result'
+            elif op == 'preimage' and documented0 and TT(b, names).of(r) != want:
+                # documented use at the call, but sifting separated the partners of the renaming
+                # before the retry: the retried recursion assumes neighbours (finding F4d)
+                bad.append('preimage denotes another function than with reordering disabled '
+                           '(sifting separated the partners of the renaming)')
+                tags['symptom'] = 'partners-separated-by-sifting'
         tt = TT(b, names)
         for u, t in held_tt.items():
             if abs(u) not in b._succ:
@@ -226,6 +276,17 @@ def _c09_one(ctx, lines, held, names, label, op, args, mid=0, op_mid=None):
             bad.append('context flag left set')
         ibad = check_invariants(b, s.ledger.get(mid, {}))
         bad += ibad
+        if rel_pairs is not None and r is not None and abs(r) in b._succ:
+            # the same call again, arguments by name, reordering switched off, on the order the
+            # manager was left in: same function (same node: canonicity)
+            s.op(mid, 'configure', 0)
+            again = s.op(op_mid, op, args[0], args[1],
+                         ','.join(f'n:{k}=n:{v}' for k, v in rel_pairs),
+                         ','.join(f'n:{q}' for q in rel_qs), args[4])
+            if s.val(again) != r:
+                bad.append(f'result {r} differs from the same call without reordering on the '
+                           f'final order ({again})')
+                tags.setdefault('symptom', 'wrong-result')
         ctx.evaluations += 1
         ctx.count('trigger:' + label)
         if bad:
@@ -906,26 +967,219 @@ def random_fn(b, rng):
 
 def _c09_known_witnesses(ctx):
     """Deterministic replay (fixed internal seed, independent of VERIF_SEED) of the call sites
-    listed as known findings: image / preimage with a request served in mid-recursion."""
+    that were the known findings F4c (image / preimage with a request served in mid-recursion:
+    scenario 1 for `image`, scenario 8 for `preimage` of this sequence raised KeyError at the
+    first request).  Since the repair they are ordinary cases: every trigger position must pass."""
     import random as _random
     saved = ctx.rng
     ctx.rng = _random.Random(20260928)
     try:
-        need = {'image', 'preimage'}
-        for _ in range(60):
-            if not need:
-                break
+        n_scen = 10 if ctx.tier == 'quick' else 40
+        for it in range(n_scen):
             nv = ctx.rng.randint(4, 6)
             lines, held, names = build_scenario(ctx, nv)
             probe = replay_lines(ctx, lines)
             ops = _c09_relational(ctx.rng, held, names, probe.mgr(0))
             probe.close()
             for label, op, args in ops:
-                if label not in need:
+                if ctx.time_left() < 5:
                     continue
-                before = len(ctx.violations)
                 _c09_one(ctx, lines, held, names, label, op, args)
-                if len(ctx.violations) > before:
-                    need.discard(label)
     finally:
         ctx.rng = saved
+
+
+F4D_WITNESSES = [
+    # (order, conjuncts of trans as (a, b) meaning a <=> b, target as a list of names to disjoin)
+    (['v0', 'v0p', 'p0', 'p1', 'p2'], [('v0', 'p2'), ('v0p', 'p0')], ['v0']),
+    (['p0', 'v0', 'v0p', 'p1', 'p2'], [('v0', 'p2'), ('v0p', 'p0')], ['v0', 'p1']),
+    (['p1', 'p0', 'v0', 'v0p', 'p2'], [('v0', 'p2'), ('v0p', 'p1')], ['v0', 'p0']),
+    (['v0', 'v0p', 'p0', 'p1', 'p2', 'p3'], [('v0', 'p3'), ('v0p', 'p0'), ('p1', 'p2')], ['v0']),
+    (['p0', 'p1', 'v0', 'v0p', 'p2', 'p3'], [('v0', 'p3'), ('v0p', 'p0')], ['v0', 'p1']),
+    (['v0', 'v0p', 'v1', 'v1p', 'p0', 'p1'], [('v0', 'p1'), ('v0p', 'p0'), ('v1', 'v1p')], ['v0']),
+]
+
+
+def _c09_f4d_witnesses(ctx):
+    """Known finding F4d: `preimage` in its documented use (partners neighbours, target over the
+    unprimed variables) with a transition relation that ties a variable and its partner to
+    variables far apart — sifting then separates the partners, and the retried recursion, which
+    assumes neighbours, denotes another function.  Fixed witnesses, every trigger position."""
+    for order, eqs, tgt in F4D_WITNESSES:
+        if ctx.time_left() < 5:
+            break
+        s = Session(ctx)
+        s.new(0, order)
+        v = {n: s.val(s.op(0, 'var', n)) for n in order}
+        tr = 1
+        for a, b_ in eqs:
+            e = s.val(s.op(0, 'apply', 'equiv', v[a], v[b_]))
+            tr = s.val(s.op(0, 'apply', 'and', tr, e))
+        tg = -1
+        for a in tgt:
+            tg = s.val(s.op(0, 'apply', 'or', tg, v[a]))
+        s.incref(0, tr)
+        s.incref(0, tg)
+        lines = list(s.lines)
+        s.close()
+        pairs = [(n, n + 'p') for n in order if n + 'p' in order]
+        _c09_one(ctx, lines, [tr, tg], sorted(order), 'preimage', 'preimage',
+                 [tr, tg, ','.join(f'n:{a}=n:{b_}' for a, b_ in pairs),
+                  ','.join(f'n:{b_}' for _, b_ in pairs), 0])
+
+
+def _c09_relational_sweeps(ctx):
+    """`image` / `preimage` at EVERY trigger position: 1-3 pairs; `rename` and `qvars` given by
+    name and by level; partners adjacent or (image) anywhere; managers padded to 9-12 variables;
+    operands are held references of a used manager."""
+    rng = ctx.rng
+    n_cfg = 12 if ctx.tier == 'quick' else 90
+    for cfg in range(n_cfg):
+        if ctx.time_left() < 12:
+            break
+        npairs = 1 + (cfg % 3) if ctx.tier == 'quick' else rng.randint(1, 3)
+        pairs = [(f'v{i}', f'v{i}p') for i in range(npairs)]
+        blocks = [list(p) if rng.random() < 0.5 else [p[1], p[0]] for p in pairs]
+        wide = (cfg % 2 == 1)
+        npad = rng.randint(9, 12) - 2 * npairs if wide else rng.randint(0, 2)
+        blocks += [[f'pad{i}'] for i in range(npad)]
+        rng.shuffle(blocks)
+        order = [n for blk in blocks for n in blk]
+        arbitrary = rng.random() < 0.4
+        if arbitrary:
+            rng.shuffle(order)
+        h = History(ctx, order)
+        core = [n for p in pairs for n in p]
+        # functions over the pair variables (and a padding variable now and then)
+        for n in core + [n for n in order if n.startswith('pad')][:2]:
+            h.add(h.s.op(0, 'var', n))
+        for _ in range(rng.randint(12, 40)):
+            h.step(dict(apply=9, ite=2, hold=3))
+        cand = [u for u in h.pool if abs(u) != 1]
+        rng.shuffle(cand)
+        for u in cand[:4]:
+            if u not in h.held:
+                h.hold(u)
+        held = [u for u in h.held if abs(u) != 1]
+        if not held:
+            h.s.close()
+            continue
+        # a target over the unprimed variables only: the documented use of `preimage`
+        tgt = h.s.val(h.s.op(0, 'quantify', rng.choice(held),
+                             ','.join(f'n:{p[1]}' for p in pairs), 0))
+        if tgt is not None and abs(tgt) != 1:
+            h.hold(tgt)
+        lines = list(h.s.lines)
+        lvl = dict(h.b.vars)
+        held_all = list(h.held)
+        h.s.close()
+        names = sorted(order)
+        for bylevel in (False, True):
+            def key(n):
+                return f'l:{lvl[n]}' if bylevel else f'n:{n}'
+            fa = rng.randint(0, 1)
+            tr = rng.choice(held)
+            src = rng.choice(held)
+            jobs = [('image', [tr, src, ','.join(f'{key(p[1])}={key(p[0])}' for p in pairs),
+                               ','.join(key(p[0]) for p in pairs), fa])]
+            if not arbitrary:
+                tg = tgt if (tgt is not None and rng.random() < 0.7) else rng.choice(held)
+                jobs.append(('preimage', [tr, tg,
+                                          ','.join(f'{key(p[0])}={key(p[1])}' for p in pairs),
+                                          ','.join(key(p[1]) for p in pairs), fa]))
+            for label, args in jobs:
+                ctx.count(f'sweep:{label}:{"level" if bylevel else "name"}:'
+                          f'{"any-order" if arbitrary else "adjacent"}:'
+                          f'{"wide" if wide else "narrow"}:{npairs}')
+                _c09_one(ctx, lines, held_all, names, label, label, args)
+
+
+def _c09_relational_errors(ctx):
+    """`image` / `preimage` calls that are REJECTED (a rename target that is an undeclared name:
+    TypeError inside `_image`, after nodes may have been added; a key that is also a value; a
+    target in the support; an invalid `qvars`), with the request firing at every position: the
+    same exception class as without reordering, never the internal signal, reordering still
+    enabled afterwards (the `finally` of the decorator), flag cleared, invariants, held references."""
+    rng = ctx.rng
+    for cfg in range(3 if ctx.tier == 'quick' else 30):
+        if ctx.time_left() < 10:
+            break
+        order = ['x', 'xp', 'y', 'yp', 'p0'][:rng.randint(4, 5)]
+        rng.shuffle(order)
+        h = History(ctx, order)
+        for n in order:
+            h.add(h.s.op(0, 'var', n))
+        for _ in range(rng.randint(10, 25)):
+            h.step(dict(apply=9, ite=2, hold=3))
+        cand = [u for u in h.pool if abs(u) != 1]
+        rng.shuffle(cand)
+        for u in cand[:3]:
+            if u not in h.held:
+                h.hold(u)
+        held = [u for u in h.held if abs(u) != 1]
+        lines = list(h.s.lines)
+        lvl = dict(h.b.vars)
+        h.s.close()
+        if not held:
+            continue
+        names = sorted(order)
+        tr, src = rng.choice(held), rng.choice(held)
+        fa = rng.randint(0, 1)
+        jobs = [
+            ('image', [tr, src, 'n:xp=n:zz', 'n:x', fa]),                 # undeclared target
+            ('image', [tr, src, f'l:{lvl["xp"]}=n:zz,n:yp=n:y', 'n:x,n:y', fa]),
+            ('preimage', [tr, src, 'n:x=n:zz', 'n:xp', fa]),
+            ('image', [tr, src, 'n:xp=n:x,n:x=n:xp', 'n:x', fa]),         # overlap
+            ('image', [tr, src, 'n:xp=n:x', '', fa]),                     # target in the support?
+            ('image', [tr, src, 'n:xp=n:x', 'n:zz', fa]),                 # invalid qvars
+            ('preimage', [tr, src, 'n:x=n:xp', 'l:17', fa]),
+            ('preimage', [tr, src, 'n:x=l:9', 'n:xp', fa]),               # value below the bottom
+        ]
+        for op, args in jobs:
+            ref_s = replay_lines(ctx, lines)
+            b0 = ref_s.mgr(0)
+            held_tt = {u: TT(b0, names).of(u) for u in held}
+            ans0 = ref_s.op(0, op, *args)
+            ctx.add_session(ref_s, SECTIONS_L3, f'C09 rejected {op} reference')
+            ref_s.close()
+            if not ans0.startswith('err'):
+                continue
+            k = 1
+            while k <= 40:
+                s = replay_lines(ctx, lines)
+                b = s.mgr(0)
+                s.op(0, 'configure', 1)
+                s.op(0, 'fire_in', k)
+                ans = s.op(0, op, *args)
+                fired = id(b) not in implmod._FIRE
+                s.op(0, 'fire_off')
+                bad = []
+                tags = dict(call='dyn:' + op + '-rejected')
+                if ans == 'err NeedsReordering':
+                    bad.append('the internal reordering signal was raised to the caller')
+                elif ans != ans0:
+                    bad.append(f'{ans0} without reordering, {ans} with a request at {k}')
+                if b._last_len is None:
+                    bad.append('reordering is no longer enabled afterwards')
+                if b._reordering_context:
+                    bad.append('context flag left set')
+                tt = TT(b, names)
+                for u, t in held_tt.items():
+                    if abs(u) not in b._succ:
+                        bad.append(f'held reference {u} deleted')
+                    elif tt.of(u) != t:
+                        bad.append(f'held reference {u} changed')
+                bad += check_invariants(b, s.ledger.get(0, {}))
+                ctx.evaluations += 1
+                ctx.count('trigger:rejected-' + op)
+                if bad:
+                    ctx.violation(f'rejected {op}: reordering at request {k} is visible', dict(
+                        problems=bad[:4], k=k, op=op, args=args, lines=list(s.lines), tags=tags))
+                s.state(0)
+                ctx.add_session(s, SECTIONS_L3, f'C09 rejected {op} k={k}')
+                s.close()
+                ctx.case(('trigger-rejected', op, k, tuple(lines[-2:]), tuple(map(str, args))))
+                if not fired:
+                    break
+                k += 1
+
